@@ -108,10 +108,10 @@ def _run(cfg):
         dk = prm.pop("delta_kind", None)
         if dk == "pow2":
             prm["delta_fn"] = lambda h: 2.0 ** (-h)
-            P["dl"] = [max(0, S >> h) if h <= 13 else 0 for h in range(60)]
+            P["dl"] = [max(0, S >> h) if h <= 13 else 0 for h in range(1200)]
         elif dk == "lin":
             prm["delta_fn"] = lambda h: max(0.0, 1.0 - h / 8.0)
-            P["dl"] = [int(max(0.0, 1.0 - h / 8.0) * S) for h in range(60)]
+            P["dl"] = [int(max(0.0, 1.0 - h / 8.0) * S) for h in range(1200)]
     if name == "StroquOOL":
         hs = sum(Decimal(1) / i for i in range(1, n + 1))
         x = Decimal(n) / (2 * (hs + 1) ** 2)
